@@ -1,20 +1,26 @@
 """C19 — P2P framing and primitive wire codecs are exact inverses and reject corruption.
 
-All engines are E1 bounded-exhaustive enumerations (plus one small E2 history search) of the real
-buidl code against the independent byte layouts in mc.ref.p2pref:
+Bounded-exhaustive enumerations (E1, plus one small E2 history search) of the real buidl code against
+the independent byte layouts in mc.ref.p2pref.  Five worker pools ("engines"); the first and the fourth
+bundle several sub-explorations (tagged `part` in the case descriptor) because on a busy machine the
+pool start-up costs more than the whole exploration:
 
-ints      int_to_/…_to_int little/big endian, int_to_byte/byte_to_int: windows around every byte boundary
-varint    encode_varint/read_varint/encode_varstr/read_varstr around every width boundary, stream position
+prims     [ints]   int_to_/…_to_int little/big endian, int_to_byte/byte_to_int: windows around every byte boundary
+          [varint] encode_varint/read_varint/encode_varstr/read_varstr around every width boundary, stream position
 envelope  NetworkEnvelope serialize/parse round trip: commands of every length 0..12 x payload lengths x 4 networks
 corrupt   every single-byte corruption / truncation / length-field change / foreign magic of base envelopes,
           decided by the strict reference receiver (impl accepts => reference accepts, and same values)
-header    80-byte block header codec, full product of field boundary values
-version   VersionMessage layout: base + every 1- and 2-field deviation (3 in thorough), default timestamp/nonce
-msgser    getheaders / getdata / getcfilters / getcfheaders / getcfcheckpt / verack / generic: serialize vs layout
-msgparse  headers / cfilter / cfheaders / cfcheckpt / ping / pong / verack: parse(reference bytes) = values,
-          each parse called exactly like SimpleNode.wait_for calls it (cls.parse(stream))
+messages  [header]   80-byte block header codec, full product of field boundary values
+          [version]  VersionMessage layout: base + every 1- and 2-field deviation (3 in thorough), default timestamp/nonce
+          [msgser]   getheaders / getdata / getcfilters / getcfheaders / getcfcheckpt / verack / generic: serialize vs layout
+          [msgparse] headers / cfilter / cfheaders / cfcheckpt / ping / pong / verack: parse(reference bytes) = values,
+                     each parse called exactly like SimpleNode.wait_for calls it (cls.parse(stream))
 node      E2: histories of incoming envelopes through the real SimpleNode.wait_for/send/handshake on a fake
           socket: bytes sent, returned message, unread remainder vs a protocol model
+
+Fingerprints name the root cause, not the case: a failing case is re-tried on the simplest input of its
+family (simplest envelope of the network, one-entry message, smallest sub-deviation of the version
+message) and only carries its own bounds in the fingerprint when the simplest input passes.
 """
 import io
 import itertools
@@ -783,8 +789,7 @@ def ver_minimal_devs(net, case, status):
     """smallest sub-deviation of the case (explicit construction) that fails the same way: names the root cause, not the case"""
     base = ver_base()
     keys = [k for k in VER_FIELDS if case["f"][k] != base[k]]
-    special = "clock" in case or case.get("default_ports")
-    for size in range(0, len(keys) + (1 if special else 0)):
+    for size in range(0, len(keys) + 1):
         for sub in itertools.combinations(keys, size):
             f = ver_concrete({"f": dict(base, **{k: case["f"][k] for k in sub}), "seed": case.get("seed", 0)})
             if ver_status(ver_build(net, f), f)[0] == status:
